@@ -112,6 +112,11 @@ class SeqRun(seq_hooks.HooksMixin, object):
             def _pragma(db_, con):
                 con.execute('PRAGMA cache_size = %d' % cs)
         self.raw_kw = {}
+        if self.knobs.get('dbkind') == 'shared' and (self.case.get('end_fault') or self.case.get('faults')
+                                                      or self.case.get('fault_op')):
+            # injected database faults are for file databases (a failed ROLLBACK would leave the shared in-memory
+            # database locked for the oracle's own connection)
+            self.knobs = dict(self.knobs, dbkind='file')
         if self.knobs.get('dbkind') == 'shared':
             # an in-memory database shared by the connections of this process (':sharedmemory:'): Pony keeps its
             # connection for good (disconnect / drop do not close it); the oracle's own connection opens the same URI
